@@ -148,11 +148,13 @@ class RendersItself:
     namespace (a DTML method, a script): name lookup in a tag must use the
     second protocol; an expression gets the object itself"""
 
-    def __init__(self, world, ident):
-        self._world, self._ident = world, ident
+    def __init__(self, world, ident, ret=None):
+        self._world, self._ident, self._ret = world, ident, ret
 
     def __render_with_namespace__(self, md):
         self._world.point(self._ident)
+        if self._ret is not None:
+            return self._world.build(self._ret)
         try:
             who = md['who']
         except KeyError:
@@ -160,8 +162,8 @@ class RendersItself:
         return '%s~%s' % (self._ident, who)
 
     def __call__(self, *args):
-        self._world.point(self._ident + ':called')
-        return '%s:called' % self._ident
+        self._world.point('%s:called' % (self._ident,))
+        return '%s:called' % (self._ident,)
 
     def __repr__(self):
         return '<rwn %s>' % (self._ident,)
@@ -212,7 +214,8 @@ class World:
 
             return Probe(world, ident, ret)
         if k == 'rwn':
-            return RendersItself(self, spec[1])
+            return RendersItself(self, spec[1],
+                                 spec[2] if len(spec) > 2 else None)
         if k == 'probeseq':
             return Probe(self, spec[1], spec[2], seq=True)
         if k == 'probef':
